@@ -231,19 +231,28 @@ pub fn fuzz_entry(data: &[u8]) {
     let _ = dispatch!(id.as_str(), fuzz_prop, data);
 }
 
-/// Raw byte-level target for C03: the bytes are the document (lossy UTF-8), no generator at all.
+/// Raw byte-level targets: the bytes are the document(s) (lossy UTF-8), no generator at all. C03:
+/// one note through every API and LSP method; C20: two notes in three versions each plus a short
+/// operation history, judged by the forest walker.
 pub fn fuzz_raw_doc(data: &[u8]) {
+    let id = cfg().id.clone();
+    match id.as_str() {
+        "C20" => fuzz_raw(&props::c20::C20, props::c20::raw_case(data), "C20"),
+        _ => fuzz_raw(&props::c03::C03, props::c03::raw_case(data), "C03"),
+    }
+}
+
+fn fuzz_raw<P: Property>(p: &P, case: P::Case, id: &str) {
     let c = cfg();
     let n = EXECS.fetch_add(1, Ordering::Relaxed) + 1;
     if n % 256 == 0 {
         write_counters(c);
     }
-    let case = props::c03::raw_case(data);
     let bytes = serde_json::to_vec(&case).unwrap_or_default();
     let journal = PathBuf::from(&c.dir).join(format!("current-{}.json", std::process::id()));
     let _ = std::fs::write(&journal, &bytes);
     let mut stats = Stats::default();
-    match eval_case(&props::c03::C03, &case, &mut stats) {
+    match eval_case(p, &case, &mut stats) {
         Verdict::Pass { nontrivial } => {
             if nontrivial {
                 NONTRIVIAL.fetch_add(1, Ordering::Relaxed);
@@ -256,12 +265,12 @@ pub fn fuzz_raw_doc(data: &[u8]) {
             if c.tolerated.iter().any(|pat| sig_matches(pat, &sig)) {
                 TOLERATED.fetch_add(1, Ordering::Relaxed);
             } else {
-                let body = serde_json::json!({"property": "C03", "signature": sig, "detail": detail,
+                let body = serde_json::json!({"property": id, "signature": sig, "detail": detail,
                     "case": serde_json::to_value(&case).unwrap_or(serde_json::Value::Null)});
                 let name = format!("{}.json", &sha_hex(&bytes)[..16]);
                 let _ = std::fs::write(PathBuf::from(&c.dir).join("found").join(name), serde_json::to_vec_pretty(&body).unwrap());
                 write_counters(c);
-                eprintln!("FUZZ-FOUND property=C03 signature={}", sig);
+                eprintln!("FUZZ-FOUND property={} signature={}", id, sig);
                 let _ = std::fs::remove_file(&journal);
                 std::process::abort();
             }
